@@ -304,6 +304,6 @@ func divRound(c DivCase, rec *h.Rec, st *divPolys, tag string, record bool) erro
 	return nil
 }
 
-var propDiv = h.NewProp("TestPropDivByLastModulus", h.Budget{Quick: 1600, Thorough: 60000}, genDiv, runDiv)
+var propDiv = h.NewProp("TestPropDivByLastModulus", h.Budget{Quick: 1600, Thorough: 30000}, genDiv, runDiv)
 
 func TestPropDivByLastModulus(t *testing.T) { propDiv.Check(t) }
